@@ -32,6 +32,12 @@ type Model struct {
 	BRs       map[string]*schedulingv1alpha2.BindRequest // ns/podName -> live (not terminally failed) request
 	Prio      map[string]int32
 	DefPrio   int32
+	// HandoffResidue (set by the C12 check, where a binder can die in the middle of an attempt): what an earlier,
+	// terminated attempt left behind is not something the scheduler handed out. An unbound pod with a live BindRequest
+	// sits in the groups of that request only (not also in the group a dead attempt labelled it with), and a
+	// reservation pod whose group has no member is residue waiting for the binder's Sync (judged by C11 / C17), not a
+	// device in use.
+	HandoffResidue bool
 }
 
 func BRTerminallyFailed(br *schedulingv1alpha2.BindRequest) bool {
